@@ -63,20 +63,38 @@ SizeClasses   == {"truncated", "negsize", "absurdsize", "nonnumsize"}
 \*   big_trunc1               : size = 1 MiB+1, 1 MiB left                             (rejected)
 \*   big_trunc                : size = 2 MiB, 38 bytes left                            (rejected)
 \*   size0                    : uripost entry with size 0 and no body                  (well-formed: delivered)
+\* parameterised ammo classes (parameters in c.arg):
+\*   cut  : the file ends at an exact cut point of the last entry (raw, uripost), arg = <<point, passes>>
+\*   long : >= 300 well-formed grpc/json lines with undecodable lines at position 2 and at every multiple of
+\*          `period`, several passes, continue-on-error; arg = <<lines, period, passes>>
+ParamAmmoClasses == {"cut", "long"}
+CutPoints == {"sizeline_mid",      \* inside the size line itself
+              "sizeline_nonl",     \* the whole size line, no newline, no body
+              "sizeline",          \* size line + newline, ZERO body bytes
+              "body1",             \* one body byte
+              "bodym1",            \* all but the last body byte
+              "body_nonl"}         \* the complete body without the trailing newline: a complete entry
+CutArgs  == { <<p, k>> : p \in CutPoints, k \in 1..2 }
+LongArgs == { <<400, 50, 2>>, <<300, 150, 3>>, <<300, 0, 2>> }
 BigOkClasses  == {"big_m1", "big_eq", "big_p1"}
 EofClasses    == {"trunc1", "mib_trunc", "big_trunc1", "big_trunc"}     \* the item is the end of the file
-HeaderClasses == {"hdr_nocolon", "hdr_nobracket", "hdr_emptykey"}
+\* hdr_tail: well-formed header lines ([X-Seq: late], [Host: evil...]) followed by a broken one - a malformed tail that
+\*           must not reach back into the entries already read;  hdr_late: the same header lines alone (legal, silent)
+HeaderClasses == {"hdr_nocolon", "hdr_nobracket", "hdr_emptykey", "hdr_tail"}
 JsonClasses   == {"badjson", "shape_array", "shape_type", "shape_scalar"}
 FieldClasses  == {"nouri", "badurl", "badmethod"}
 \* the FILE is well-formed, the `headers` option of the provider config is not (util.DecodeHTTPConfigHeaders)
 CfgClasses    == {"cfghdr_nocolon", "cfghdr_nobracket", "cfghdr_emptykey"}
 AmmoClasses   == {"none", "longline", "nullvalue", "badrequest"} \cup SizeClasses \cup HeaderClasses \cup JsonClasses \cup FieldClasses \cup CfgClasses
-                 \cup BigOkClasses \cup EofClasses \cup {"size0"}
+                 \cup BigOkClasses \cup EofClasses \cup {"size0", "hdr_late"} \cup ParamAmmoClasses
 
 Applies(f, c) ==
     CASE c = "none"          -> TRUE
       [] c \in SizeClasses \cup BigOkClasses \cup EofClasses -> f \in {"uripost", "raw"}
       [] c = "size0"         -> f = "uripost"
+      [] c = "cut"           -> f \in {"uripost", "raw"}
+      [] c = "long"          -> f = "grpcjson"
+      [] c = "hdr_late"      -> f \in {"uri", "uripost"}
       [] c \in HeaderClasses -> f \in {"uri", "uripost"}
       [] c \in JsonClasses   -> f \in {"jsonline", "jsonarray", "grpcjson"}
       [] c = "nullvalue"     -> f \in {"jsonline", "jsonarray", "grpcjson"}
@@ -101,11 +119,20 @@ Verdict(f, c) ==
       [] c \in BigOkClasses \cup {"size0"} -> "deliver"
       [] c = "longline"  -> IF HasLineLimit(f) THEN "reject" ELSE "deliver"
       [] c = "nullvalue" -> "either"
+      [] c = "hdr_late"  -> "silent"       \* legal header lines: nothing is delivered for them, nothing fails
       [] OTHER           -> "reject"
+
+\* verdict of a case (the parameterised classes look at c.arg)
+\* ("mustskip": the undecodable lines of a long continue-on-error file are stepped over, one by one)
+VerdictC(c) == IF c.cls = "cut" THEN (IF c.arg[1] = "body_nonl" THEN "deliver" ELSE "reject")
+               ELSE IF c.cls = "long" THEN "mustskip"
+               ELSE Verdict(c.format, c.cls)
+\* file passes requested from the provider
+NPasses(c) == IF c.cls = "cut" THEN c.arg[2] ELSE IF c.cls = "long" THEN c.arg[3] ELSE 1
 
 \* continue-on-error can step over an item only when the reader can find the next one:
 \* a line that decodes badly, not a line the scanner could not even produce
-Skippable(f, c) == f = "grpcjson" /\ c \in JsonClasses
+Skippable(f, c) == f = "grpcjson" /\ c \in JsonClasses \cup {"long"}
 
 \* whole-file readers decode everything before the first delivery
 WholeFile(f, m) == f = "jsonarray" \/ m = "preload"
@@ -185,13 +212,23 @@ LastStage(t) == IF t = "config" THEN 1 ELSE 4
 
 AmmoCases ==
     { [kind |-> "ammo", format |-> f, mode |-> m, np |-> np, cls |-> c, nt |-> nt, arg |-> <<>>] :
-        f \in Formats, m \in Modes("uri") \cup Modes("grpcjson"), np \in 0..MaxPrefix, c \in AmmoClasses, nt \in 0..MaxTrail }
+        f \in Formats, m \in Modes("uri") \cup Modes("grpcjson"), np \in 0..MaxPrefix,
+        c \in AmmoClasses \ ParamAmmoClasses, nt \in 0..MaxTrail }
+    \cup
+    { [kind |-> "ammo", format |-> f, mode |-> m, np |-> np, cls |-> "cut", nt |-> 0, arg |-> a] :
+        f \in {"uripost", "raw"}, m \in Modes("uri"), np \in 0..MaxPrefix, a \in CutArgs }
+    \cup
+    { [kind |-> "ammo", format |-> "grpcjson", mode |-> "continue", np |-> 0, cls |-> "long", nt |-> 0, arg |-> a] :
+        a \in LongArgs }
 
 AmmoCaseOK(c) ==
     /\ c.mode \in Modes(c.format)
     /\ Applies(c.format, c.cls)
-    /\ (c.cls = "none" => c.np + c.nt > 0)          \* the empty file is C08's subject
+    /\ (c.cls \in {"none", "hdr_late"} => c.np + c.nt > 0)   \* the file without entries is C08's subject
     /\ (c.cls \in EofClasses => c.nt = 0)
+    /\ (c.cls = "cut"  => c.nt = 0 /\ c.arg \in CutArgs)
+    /\ (c.cls = "long" => c.np = 0 /\ c.nt = 0 /\ c.mode = "continue" /\ c.arg \in LongArgs)
+    /\ (c.cls \notin ParamAmmoClasses => c.arg = <<>>)
 
 DescCases ==
     { [kind |-> "desc", format |-> t, mode |-> "-", np |-> 0, cls |-> c, nt |-> 0, arg |-> <<>>] :
@@ -264,7 +301,7 @@ IsCase(c) ==
     /\ DOMAIN c = {"kind", "format", "mode", "np", "cls", "nt", "arg"}
     /\ IF c.kind = "ammo" THEN
            /\ c.format \in Formats /\ c.cls \in AmmoClasses /\ c.np \in 0..MaxPrefix /\ c.nt \in 0..MaxTrail
-           /\ c.arg = <<>> /\ AmmoCaseOK(c)
+           /\ AmmoCaseOK(c)
        ELSE /\ c.kind = "desc" /\ c.mode = "-" /\ c.np = 0 /\ c.nt = 0
             /\ CASE c.cls = "reqlist" -> /\ c.format \in ScenarioTargets
                                          /\ Len(c.arg) <= MaxReqLen
@@ -284,8 +321,16 @@ Prefix(c) == Strs(PrefixIds(c))
 Trail(c)  == Strs(TrailIds(c))
 
 \* the file as a sequence of items
-File(c) == Prefix(c) \o <<"x">> \o Trail(c)
-ItemPos(c) == c.np + 1
+\* (long files: nothing here builds the whole file per step - TLC re-evaluates operators on every reference)
+IsBad(c, i) == c.arg[2] # 0 /\ (i = 2 \/ i % c.arg[2] = 0)
+FileLen(c)  == IF c.cls = "long" THEN c.arg[1] ELSE c.np + 1 + c.nt
+IsItem(c, pos) == IF c.cls = "long" THEN IsBad(c, pos) ELSE pos = c.np + 1
+ItemAt(c, pos) == IF IsItem(c, pos) THEN "x"
+                  ELSE IF c.cls = "long" THEN ToString(pos)
+                  ELSE (Prefix(c) \o <<"x">> \o Trail(c))[pos]
+File(c) == [i \in 1..FileLen(c) |-> ItemAt(c, i)]
+\* the well-formed entries in front of the first item
+Lead(c) == IF c.cls = "long" THEN (IF c.arg[2] = 0 THEN File(c) ELSE <<"1">>) ELSE Prefix(c)
 
 -----------------------------------------------------------------------------
 (* Reader state machine.                                                   *)
@@ -297,7 +342,7 @@ ItemPos(c) == c.np + 1
 (*   loaded : whole-file readers: "no" before the decode-everything step,  *)
 (*            then "with" / "without" the item in the loaded list          *)
 
-Start(c) == [pos |-> 1, out |-> <<>>, res |-> "run", loaded |-> "no", n |-> 0]
+Start(c) == [pos |-> 1, out |-> <<>>, res |-> "run", loaded |-> "no", n |-> 0, pass |-> 1]
 
 Ev(kind, arg) == [ev |-> kind, arg |-> arg]
 
@@ -307,8 +352,8 @@ MaySkip(c) ==
     \/ Variant = "swallow"                      \* negative control: errors swallowed everywhere
 
 ItemVerdicts(c) ==
-    LET v == Verdict(c.format, c.cls) IN
-    (IF v = "either" THEN {"deliver", "reject"} ELSE {v})
+    LET v == VerdictC(c) IN
+    (IF v = "either" THEN {"deliver", "reject"} ELSE IF v = "mustskip" THEN {"skip"} ELSE {v})
     \cup (IF v = "reject" /\ MaySkip(c) THEN {"skip"} ELSE {})
 
 \* whole-file readers: one decode step over the complete file (s.loaded: "no" -> "with" / "without" the
@@ -322,17 +367,21 @@ AmmoSucc(c, s) ==
     IF AtLoad(c) /\ s.loaded = "no" THEN
         { CASE v = "reject"  -> Reject(s)
             [] v = "deliver" -> [e |-> Ev("Load", "with"), s |-> [s EXCEPT !.loaded = "with"]]
-            [] v = "skip"    -> [e |-> Ev("Load", "without"), s |-> [s EXCEPT !.loaded = "without"]]
+            [] v \in {"skip", "silent"} -> [e |-> Ev("Load", "without"), s |-> [s EXCEPT !.loaded = "without"]]
           : v \in ItemVerdicts(c) }
-    ELSE IF s.pos > Len(File(c)) THEN
-        { [e |-> Ev("End", "accepted"), s |-> [s EXCEPT !.res = "accepted"]] }
-    ELSE IF s.pos # ItemPos(c) THEN
-        { Deliver1(s, File(c)[s.pos]) }
+    ELSE IF s.pos > FileLen(c) THEN
+        \* end of the file: the next pass reads it again from the start (in-file headers forgotten), the last ends the run
+        IF s.pass < NPasses(c)
+        THEN { [e |-> Ev("Rewind", "-"), s |-> [s EXCEPT !.pos = 1, !.pass = @ + 1]] }
+        ELSE { [e |-> Ev("End", "accepted"), s |-> [s EXCEPT !.res = "accepted"]] }
+    ELSE IF ~IsItem(c, s.pos) THEN
+        { Deliver1(s, ItemAt(c, s.pos)) }
     ELSE IF s.loaded = "with" THEN { Deliver1(s, "x") }
     ELSE IF s.loaded = "without" THEN { SkipItem(s) }
     ELSE UNION {
           CASE v = "deliver" -> { Deliver1(s, "x") }
             [] v = "reject"  -> { Reject(s) }
+            [] v = "silent"  -> { SkipItem(s) }
             \* continue-on-error: the bad item is handed out marked invalid (grpc/json: Invalidate()) or dropped
             [] v = "skip"    -> { [e |-> Ev("Deliver", "invalid"), s |-> [s EXCEPT !.pos = IF Variant = "spin" THEN @ ELSE @ + 1]],
                                   SkipItem(s) }
@@ -357,7 +406,7 @@ Succ(c, s) ==
              x \in (IF c.kind = "ammo" THEN AmmoSucc(c, s) ELSE DescSucc(c, s)) }
 
 \* events the implementation cannot show are silent for the acceptor
-Silent(e) == e.ev \in {"Load", "Skip"}
+Silent(e) == e.ev \in {"Load", "Skip", "Rewind"}
 
 -----------------------------------------------------------------------------
 (* Design-level behaviour *)
@@ -376,21 +425,25 @@ Done == st.res # "run"
 IsPrefixOf(a, b) == Len(a) <= Len(b) /\ \A i \in 1..Len(a) : a[i] = b[i]
 Without(seq, x) == SelectSeq(seq, LAMBDA y : y # x)
 
-WellFormed(c) == Prefix(c) \o Trail(c)
+WellFormed(c) == Without(File(c), "x")
+RECURSIVE Rep(_, _)
+Rep(seq, k) == IF k = 0 THEN <<>> ELSE seq \o Rep(seq, k - 1)
+Expected(c) == Rep(WellFormed(c), NPasses(c))
 
 TypeOK ==
     /\ IsCase(cs)
     /\ st.res \in {"run", "accepted", "rejected"}
-    /\ st.pos \in 1..(IF cs.kind = "ammo" THEN Len(File(cs)) + 1 ELSE 5)
+    /\ st.pos \in 1..(IF cs.kind = "ammo" THEN FileLen(cs) + 1 ELSE 5)
 
 \* never alters how well-formed entries before it are delivered: whatever has been delivered so far,
 \* minus the item itself, is an initial part of the well-formed entries in file order
+\* (for the long files the check is made on the final state only - out only grows, so that implies the rest)
 PrefixUnchanged ==
-    cs.kind = "ammo" => IsPrefixOf(Without(st.out, "x"), WellFormed(cs))
+    (cs.kind = "ammo" /\ (cs.cls # "long" \/ st.res # "run")) => IsPrefixOf(Without(st.out, "x"), Expected(cs))
 
 \* an input that must be rejected is never accepted unless continue-on-error was requested and applies
 NoSilentAccept ==
-    (st.res = "accepted" /\ cs.kind = "ammo" /\ Verdict(cs.format, cs.cls) = "reject")
+    (st.res = "accepted" /\ cs.kind = "ammo" /\ VerdictC(cs) = "reject")
         => (cs.mode = "continue" /\ Skippable(cs.format, cs.cls))
 NoSilentAcceptDesc ==
     (st.res = "accepted" /\ cs.kind = "desc") => DescInfo(cs).v # "reject"
@@ -398,19 +451,19 @@ NoSilentAcceptDesc ==
 \* a well-formed input is never rejected
 NoFalseReject ==
     st.res = "rejected" =>
-        IF cs.kind = "ammo" THEN Verdict(cs.format, cs.cls) # "deliver" ELSE DescInfo(cs).v # "deliver"
+        IF cs.kind = "ammo" THEN VerdictC(cs) # "deliver" ELSE DescInfo(cs).v # "deliver"
 
 \* streaming: when the reader fails at the item, everything before it has been delivered, unchanged
 StreamDeliversPrefix ==
     (st.res = "rejected" /\ cs.kind = "ammo") =>
-        st.out = (IF AtLoad(cs) THEN <<>> ELSE Prefix(cs))
+        st.out = (IF AtLoad(cs) THEN <<>> ELSE Lead(cs))
 
 \* accepted: every well-formed entry was delivered, in order
 AcceptedDeliversAll ==
-    (st.res = "accepted" /\ cs.kind = "ammo") => Without(st.out, "x") = WellFormed(cs)
+    (st.res = "accepted" /\ cs.kind = "ammo") => Without(st.out, "x") = Expected(cs)
 
 \* no hang / no spinning: every step consumes an item or ends the run, so the number of steps (st.n) of
 \* any behaviour is bounded by the length of the input (+ load step + end step)
-Progress == st.n <= (IF cs.kind = "ammo" THEN Len(File(cs)) + 2 ELSE LastStage(cs.format) + 1)
+Progress == st.n <= (IF cs.kind = "ammo" THEN (FileLen(cs) + 1) * NPasses(cs) + 1 ELSE LastStage(cs.format) + 1)
 
 =============================================================================
